@@ -55,6 +55,11 @@ func (fx *fnExec) indexAnchors() map[ssa.Instruction]anchorInfo {
 				}
 			case *ssa.Return:
 				base = "return"
+			case *ssa.MapUpdate:
+				base = "mapupdate"
+				if t := fx.nodeText[x.Pos()]; t != "" {
+					base = "mapupdate(" + t + ")"
+				}
 			}
 			if base != "" {
 				evs = append(evs, ev{in, base, in.Pos(), seq})
@@ -473,6 +478,7 @@ func (fx *fnExec) execInstr(st *state, in ssa.Instruction) {
 		k := fx.termOf(st, x.Key)
 		v := fx.termOf(st, x.Value)
 		mt := x.Map.Type().Underlying().(*types.Map)
+		fx.anchorAsserts(st, in, map[string]sval{"key": fx.toSval(fx.operand(st, x.Key))})
 		fx.safetyObl("nil", in, x.Pos(), "mapupdate", "(not (= "+m+" 0))")
 		md, mv, ds, vs := fx.mapArrs(mt)
 		fx.assignsObl(md, m, in, x.Pos())
@@ -920,15 +926,16 @@ func (fx *fnExec) execReturn(st *state, x *ssa.Return) {
 }
 
 func (fx *fnExec) finishReturns() {
-	// unused anchors are engine errors (contract refers to a site that does not exist)
+	// contract clauses anchored at a site that does not exist (or is unreachable) in the current source:
+	// not fatal for the other obligations of the function, but the function is not counted as verified.
 	for _, a := range fx.ct.Asserts {
 		if !fx.usedAnchors[a] {
-			fx.fail("assert [%s] anchored at %s: no such site (or unreachable)", a.Label, a.Anchor)
+			fx.warnings = append(fx.warnings, fmt.Sprintf("%s: assert [%s] anchored at %s: no such site (or unreachable)", fx.fn.String(), a.Label, a.Anchor))
 		}
 	}
 	for _, a := range fx.ct.GhostSets {
 		if !fx.usedAnchors[a] {
-			fx.fail("ghostset %s anchored at %s: no such site (or unreachable)", a.Target, a.Anchor)
+			fx.warnings = append(fx.warnings, fmt.Sprintf("%s: ghostset %s anchored at %s: no such site (or unreachable)", fx.fn.String(), a.Target, a.Anchor))
 		}
 	}
 }
